@@ -14,6 +14,7 @@ const shimPkg = "agent/shimagent"
 // shimModel resolves the shim agent's state fields by type, not by name.
 type shimModel struct {
 	w        *World
+	pure     map[*ssa.Function]bool
 	Server   *types.Named
 	fLocked  string // the only bool field tested before operations: by type bool + written by Lock/Unlock
 	fCerts   string // map[hashcode]*certificate
@@ -213,10 +214,66 @@ func (m *shimModel) effect(fn *ssa.Function, ins ssa.Instruction) (string, bool)
 		}
 		// calls of server methods
 		if callee := c.StaticCallee(); callee != nil && recvNamed(callee) == m.Server {
+			if m.effectFree(callee, 0) {
+				return "", false // a helper that only reads (e.g. a guard returning the refusal error)
+			}
 			return "call of (*Server)." + callee.Name(), true
 		}
 	}
 	return "", false
+}
+
+// effectFree: neither fn nor any repository function it calls statically performs an effect (as classified above),
+// makes a dynamic call or starts a goroutine.
+func (m *shimModel) effectFree(fn *ssa.Function, depth int) bool {
+	if fn == nil || fn.Blocks == nil || depth > 3 {
+		return false
+	}
+	if v, ok := m.pure[fn]; ok {
+		return v
+	}
+	if m.pure == nil {
+		m.pure = map[*ssa.Function]bool{}
+	}
+	m.pure[fn] = false // recursion: not pure
+	ok := true
+	for _, b := range fn.Blocks {
+		for _, ins := range b.Instrs {
+			switch x := ins.(type) {
+			case *ssa.Go, *ssa.Defer, *ssa.Send, *ssa.MakeClosure:
+				ok = false
+			case *ssa.Store:
+				// stores into fresh locals only
+				if _, isAlloc := x.Addr.(*ssa.Alloc); !isAlloc {
+					ok = false
+				}
+			case *ssa.MapUpdate:
+				ok = false
+			case *ssa.Call:
+				if _, isB := x.Call.Value.(*ssa.Builtin); isB {
+					if n := x.Call.Value.Name(); n != "len" && n != "cap" {
+						ok = false
+					}
+					continue
+				}
+				callee := x.Call.StaticCallee()
+				switch {
+				case callee == nil:
+					ok = false
+				case m.w.InRepo(callee):
+					if !m.effectFree(callee, depth+1) {
+						ok = false
+					}
+				default:
+					if n := calleeName(x); n != "errors.New" && n != "fmt.Errorf" && n != "fmt.Sprintf" {
+						ok = false
+					}
+				}
+			}
+		}
+	}
+	m.pure[fn] = ok
+	return ok
 }
 
 // lockedLits returns whether the lock flag is known (true/false) at block b of fn.
